@@ -311,4 +311,10 @@ def run(ctx, rep, tier):
     _run_i15(ctx, rep, tier)
     _token_conversion_discipline(ctx, rep, tier)
     from .shared import delegate
+    rep.rule("C15.k", "a literal in match position that denotes the empty byte string is refused (its machine would have no accepting state: everything after it is dropped)")
+    q = "ParseCtx._parse_match_expr"
+    hits = ctx.model.find(q, "if not match.match_contents:\n    raise IllegalParseTree($$m, actual_content)")
+    made = [c for c in calls_in(ctx.model.func(q)) if isinstance(c.func, ast.Name) and c.func.id in ("DirectMatch", "CaseDirectMatch")]
+    rep.check(len(hits) >= 2 and len(made) == 3, "C15.k", q, f"each of the {len(made)} literal-match constructions is followed by the emptiness test",
+              "`\"a\"; \"\"; \"b\";` compiles into a dead end: the empty literal's machine has a start state without transitions and no accepting state")
     delegate(ctx, rep, tier, "C03", ("C03.n",), "C15.j", "a string constant assigned at the start keeps its first byte: the initial terminator is written before the start actions run")
